@@ -36,11 +36,27 @@ def pbc_distance(pos, boxlen):
     return float(np.sqrt(sum(x * x for x in out)))
 
 
-def reference(frames, left, right, maxlen):
+def pbc_distance_rate(pos, vel, boxlen, vel_rev):
+    """d|r|/dt with the physical velocities (file velocities are the running ones: reversed when vel_rev)."""
+    d = pos[1] - pos[0]
+    out = []
+    for x, L in zip(d, boxlen):
+        if abs(x) > 0.5 * L:
+            x = x - round(x / L) * L
+        out.append(x)
+    out = np.array(out)
+    dv = (vel[1] - vel[0]) * (-1.0 if vel_rev else 1.0)
+    return float(np.dot(out, dv) / np.sqrt(np.dot(out, out)))
+
+
+def reference(frames, left, right, maxlen, op="dist", vel_rev=False):
     """Orders of the path the engine must return and its success flag."""
     orders = []
     for (pos, vel, box) in frames:
-        orders.append(pbc_distance(pos, box[:, 1] - box[:, 0]))
+        if op == "distvel":
+            orders.append(pbc_distance_rate(pos, vel, box[:, 1] - box[:, 0], vel_rev))
+        else:
+            orders.append(pbc_distance(pos, box[:, 1] - box[:, 0]))
     out = []
     for k, o in enumerate(orders):
         out.append(o)
@@ -61,6 +77,8 @@ LAMMPS_CASES = [
     dict(d0=6.5, v=0.25, box0=10.0, boxes=[14.0, 10.0], intf=(2.0, 3.0, 8.0), maxlen=5, sub=1),
     dict(d0=3.0, v=0.25, box0=12.0, boxes=[12.0], intf=(2.0, 3.0, 9.0), maxlen=4, sub=2),
     dict(d0=3.0, v=-0.5, box0=12.0, boxes=[7.0, 12.0], intf=(1.2, 3.0, 9.0), maxlen=6, sub=1),
+    # velocity dependent order parameter (rate of change of the distance): the sign must follow the physical velocity
+    dict(d0=3.0, v=0.5, box0=12.0, boxes=[12.0], intf=(-9.0, 0.0, 9.0), maxlen=4, sub=1, op="distvel"),
 ]
 
 
@@ -75,6 +93,10 @@ def lammps_run(ch, case, reverse, wd, menu):
     eng, _ = engines.lammps()
     eng.exe_dir = wd
     eng.order_function = Distance((0, 1), periodic=True)
+    if case.get("op") == "distvel":
+        from infretis.classes.orderparameter import Distancevel
+
+        eng.order_function = Distancevel((0, 1), periodic=True)
     eng.rgen = np.random.default_rng(5)
     eng.subcycles = case["sub"]
     eng.timestep = 1.0
@@ -102,6 +124,8 @@ def lammps_run(ch, case, reverse, wd, menu):
         raised = str(e)
     except watchdog.Hang as e:
         raised = "HANG: " + str(e)
+    except Exception as e:  # noqa: BLE001 - any other exception is judged like a raise
+        raised = f"{type(e).__name__}: {e}"
     finally:
         world.unpatch()
     return dict(path=path, success=success, raised=raised, world=world, prog=progs[0] if progs else None, eng=eng)
@@ -116,7 +140,7 @@ def lammps_judge(r, case, reverse):
     left, _, right = case["intf"]
     # the full toy trajectory (as the program would write it)
     frames = [prog.flight.frame(k, prog.subcycles) for k in range(prog.nframes)]
-    ref_orders, ref_success = reference(frames, left, right, case["maxlen"])
+    ref_orders, ref_success = reference(frames, left, right, case["maxlen"], op=case.get("op", "dist"), vel_rev=reverse)
     written = len(prog.written)
     died = proc.returncode not in (0, None) and not proc.killed
     if r["raised"] is not None and r["raised"].startswith("HANG"):
@@ -151,7 +175,7 @@ def lammps_judge(r, case, reverse):
             bad.append(("velocity-flag", f"frame {k} vel_rev={pp.vel_rev} for reverse={reverse}"))
             break
     # frame 0 is the start point
-    if got and abs(got[0] - pbc_distance(frames[0][0], frames[0][2][:, 1] - frames[0][2][:, 0])) > 1e-9:
+    if got and abs(got[0] - ref_orders[0]) > 1e-9:
         bad.append(("first-frame", "frame 0 is not the start point"))
     if prog.seed is None:
         bad.append(("no-seed-in-input", "run.inp carries no seed"))
@@ -184,7 +208,7 @@ def _lammps_job(args):
 def run(ctx):
     import multiprocessing as mp
 
-    menu = ("frame", "2frames", "stay", "finish", "die")
+    menu = ("frame", "2frames", "stay", "finish", "die", "sig")
     jobs = []
     for ci in range(len(LAMMPS_CASES)):
         for reverse in (False, True):
@@ -213,7 +237,7 @@ def run(ctx):
     ctx.set("traces_validated_against_impl", n + extra)
     ctx.set("lammps_schedules", n)
     ctx.set("rule", "state = (engine, toy-dynamics case, direction); transition = one complete schedule of writer progress vs engine polls "
-                    "(one frame / two frames / stay (<= 2 in a row) / finish / die at every poll); distinct = (case, number of distinct schedules)")
+                    "(one frame / two frames / stay (<= 2 in a row) / finish / die with rc 1 / killed by a signal (rc -11) at every poll); distinct = (case, number of distinct schedules)")
     ctx.sample(dict(engine="lammps", case=LAMMPS_CASES[1], schedule=["frame", "2frames", "stay", "frame"]))
     ctx.assume("fake writers emit the formats the real programs emit; toy dynamics = free flight with a box that changes per frame")
 
